@@ -23,7 +23,7 @@ if [ -n "$DEMO" ] && [ "$PKG" != "-" ]; then
 fi
 echo "--- test suite with patch (expect only the 2 network tests to fail):"
 go test -vet=off -count=1 ./... 2>&1 | grep -E "^(--- FAIL|FAIL|ok)" | grep -v "^ok" | sort | uniq -c
-cd /verif
+cd "$(dirname "$0")/.."
 for P in "$@"; do
   echo "--- check $P quick against the mutant:"
   VERIF_REPO="$WT" ./bin/check $P quick 2>&1 | grep -E "^(VIOLATION|KNOWN|violation|check:|infrastructure|harness|C[0-9]+ quick)" | cut -c1-330 | head -12
